@@ -488,3 +488,33 @@ Lemma gathered_vector_histogram (c : hist_cfg (T := R)) (weights : list R)
 Proof.
   intros Hp h. split; [intros vars iv; apply gather_spec|]. split; [apply hist_run_nth | apply hist_total]; auto.
 Qed.
+
+(* a value outside [lower, lower + n*w) has a bin index outside [0, n): it is in no bin of the grid, and a sample with
+   such a component leaves the histogram unchanged *)
+Lemma outside_no_bin (l w x : R) (n : Z) : (0 < w)%R ->
+  ((x < l)%R -> (value_to_bin Rops l w x < 0)%Z) /\
+  ((l + IZR n * w <= x)%R -> (n <= value_to_bin Rops l w x)%Z) /\
+  ((l <= x < l + IZR n * w)%R -> (0 <= value_to_bin Rops l w x < n)%Z).
+Proof.
+  intros Hw. set (i := value_to_bin Rops l w x).
+  assert (Hi : value_to_bin Rops l w x = i) by reflexivity.
+  apply bin_unique in Hi; auto. destruct Hi as [H1 H2].
+  split; [|split].
+  - intros Hx. apply lt_IZR. assert (IZR i * w < 0)%R by lra.
+    destruct (Rlt_le_dec (IZR i) 0) as [|Hge]; [assumption|]. assert (0 <= IZR i * w)%R by (apply Rmult_le_pos; lra). lra.
+  - intros Hx. apply le_IZR. assert (IZR n * w < (IZR i + 1) * w)%R by lra.
+    assert (IZR n < IZR i + 1)%R by (apply Rmult_lt_reg_r with w; lra).
+    rewrite <- plus_IZR in H0. apply lt_IZR in H0. apply IZR_le. lia.
+  - intros [Hlo Hhi]. split.
+    + apply le_IZR. destruct (Rlt_le_dec (IZR i) 0) as [Hneg|]; [|lra].
+      assert (IZR i <= -1)%R. { change (-1)%R with (IZR (-1)). apply IZR_le. apply lt_IZR in Hneg. lia. }
+      assert ((IZR i + 1) * w <= 0)%R by nra. lra.
+    + apply lt_IZR. assert (IZR i * w < IZR n * w)%R by lra. apply Rmult_lt_reg_r with w; lra.
+Qed.
+
+Lemma out_of_grid_sample_ignored (c : hist_cfg (T := R)) (data : list R) (s : list R * R) :
+  index_ok (h_nx c) (bins Rops (h_lower c) (h_width c) (fst s)) = false ->
+  acc_sample Rops c data s = data /\ weight_in c s = 0%R /\ forall a, weight_at c a s = 0%R.
+Proof.
+  intros H. unfold acc_sample, weight_in, weight_at, in_grid, sample_bin. rewrite H. repeat split. 
+Qed.
